@@ -96,7 +96,7 @@ def wrap_non_picklable_objects(obj, keep_wrapper=True):
             base_wrapper = CloudpickledObjectWrapper
 
         class CloudpickledClassWrapper(base_wrapper):
-            def __init__(self, *args, **kwargs):
+            def __init__(self, /, *args, **kwargs):
                 self._obj = obj(*args, **kwargs)
                 self._keep_wrapper = keep_wrapper
 
